@@ -16,7 +16,7 @@ def hdrOf (raw : Raw) (ds : Nat) : Header :=
 theorem validate_ok_iff (raw : Raw) (len : Nat) (H : Header) :
     validate raw len = .ok H ↔
       raw.maxval = pixelMax ∧ F64.eq raw.st.offset Decimal.maxFinite = false ∧ F64.eq raw.st.scale 0 = false ∧
-      F64.lt raw.st.scale 0 = false ∧ 2 ≤ raw.w ∧ 2 ≤ raw.h ∧ raw.w % 2 = 0 ∧ raw.h % 2 = 1 ∧
+      F64.lt raw.st.scale 0 = false ∧ 2 ≤ raw.w ∧ 2 ≤ raw.h ∧ raw.w % 2 = 0 ∧ raw.h % 2 = 1 ∧ raw.w ≤ 2 ^ 30 ∧ raw.h ≤ 2 ^ 30 ∧
       ∃ p, raw.tell = some p ∧ lengthOKCoded (p + 1) raw.w raw.h len = true ∧ H = hdrOf raw (p + 1) := by
   cases ht : raw.tell with
   | none =>
@@ -24,10 +24,11 @@ theorem validate_ok_iff (raw : Raw) (len : Nat) (H : Header) :
     split_ifs <;> simp_all
   | some p =>
     simp only [validate, ht, hdrOf]
-    split_ifs with h1 h2 h3 h4 h5 h6 h7 h8
+    split_ifs with h1 h2 h3 h4 h5 h6 h7 h8 h9
     all_goals simp_all
     all_goals first | omega | (constructor <;> intro h <;> simp_all <;> omega)
 
+set_option maxHeartbeats 2000000 in
 theorem validate_error_iff (raw : Raw) (len : Nat) :
     (validate raw len = .error .maxvalValue ↔ raw.maxval ≠ pixelMax) ∧
     (validate raw len = .error .offsetUnset ↔ raw.maxval = pixelMax ∧ F64.eq raw.st.offset Decimal.maxFinite = true) ∧
@@ -40,10 +41,12 @@ theorem validate_error_iff (raw : Raw) (len : Nat) :
         F64.lt raw.st.scale 0 = false ∧ 2 ≤ raw.h ∧ 2 ≤ raw.w ∧ raw.w % 2 = 1) ∧
     (validate raw len = .error .heightEven ↔ raw.maxval = pixelMax ∧ F64.eq raw.st.offset Decimal.maxFinite = false ∧ F64.eq raw.st.scale 0 = false ∧
         F64.lt raw.st.scale 0 = false ∧ 2 ≤ raw.h ∧ 2 ≤ raw.w ∧ raw.w % 2 = 0 ∧ raw.h % 2 = 0) ∧
+    (validate raw len = .error .tooLarge ↔ raw.maxval = pixelMax ∧ F64.eq raw.st.offset Decimal.maxFinite = false ∧ F64.eq raw.st.scale 0 = false ∧
+        F64.lt raw.st.scale 0 = false ∧ 2 ≤ raw.h ∧ 2 ≤ raw.w ∧ raw.w % 2 = 0 ∧ raw.h % 2 = 1 ∧ (2 ^ 30 < raw.w ∨ 2 ^ 30 < raw.h)) ∧
     (validate raw len = .error .wrongLength ↔ raw.maxval = pixelMax ∧ F64.eq raw.st.offset Decimal.maxFinite = false ∧ F64.eq raw.st.scale 0 = false ∧
-        F64.lt raw.st.scale 0 = false ∧ 2 ≤ raw.h ∧ 2 ≤ raw.w ∧ raw.w % 2 = 0 ∧ raw.h % 2 = 1 ∧
+        F64.lt raw.st.scale 0 = false ∧ 2 ≤ raw.h ∧ 2 ≤ raw.w ∧ raw.w % 2 = 0 ∧ raw.h % 2 = 1 ∧ raw.w ≤ 2 ^ 30 ∧ raw.h ≤ 2 ^ 30 ∧
         (raw.tell = none ∨ ∃ p, raw.tell = some p ∧ lengthOKCoded (p + 1) raw.w raw.h len = false)) ∧
-    (∀ e, validate raw len = .error e → e ∈ [Err.maxvalValue, .offsetUnset, .scaleUnset, .scaleNeg, .tooSmall, .widthOdd, .heightEven, .wrongLength]) := by
+    (∀ e, validate raw len = .error e → e ∈ [Err.maxvalValue, .offsetUnset, .scaleUnset, .scaleNeg, .tooSmall, .widthOdd, .heightEven, .tooLarge, .wrongLength]) := by
   cases ht : raw.tell with
   | none =>
     simp only [validate, ht]
@@ -651,19 +654,21 @@ theorem canonical_scan (cubic : Bool) (w h : Nat) (hw : w < 2 ^ 31) (hh : h < 2 
   rw [e]
 
 
-/-- **every canonical file of every admissible size**: for every even width in [2, 2^31), every odd height in [3, 2^31)
-    and every data section, the file `P5 / # Offset -108 / # Scale 0.003 / w h / 65535 / data` is accepted if and only if its
-    length is exactly `header + 2·w·h` (unbounded arithmetic: also beyond 2^32 and 2^64/pixel) — with the announced width,
-    height, offset, scale and `datastart = header length`; with any other length the exception is "File has the wrong
-    length" -/
+/-- **every canonical file of every size**: for every even width in [2, 2^31), every odd height in [3, 2^31) and every
+    data section, the file `P5 / # Offset -108 / # Scale 0.003 / w h / 65535 / data` is
+    * rejected with "Raster size too large" when the width or the height exceeds 2^30 (whatever its length),
+    * otherwise accepted if and only if its length is exactly `header + 2·w·h` (unbounded arithmetic: also beyond 2^32)
+      — with the announced width, height, offset, scale and `datastart = header length`,
+    * and rejected with "File has the wrong length" for any other length -/
 theorem canonical_file (cubic : Bool) (w h : Nat) (hw2 : 2 ≤ w) (hwe : w % 2 = 0) (hwm : w < 2 ^ 31)
     (hh3 : 3 ≤ h) (hho : h % 2 = 1) (hhm : h < 2 ^ 31) (data : Bytes) (len : Nat) (hlen : len < 2 ^ 64) :
-    (len = canonHeaderLen w h + 2 * w * h →
+    (2 ^ 30 < w ∨ 2 ^ 30 < h → parse cubic (canonFile w h data) len = .error .tooLarge) ∧
+    (w ≤ 2 ^ 30 → h ≤ 2 ^ 30 → len = canonHeaderLen w h + 2 * w * h →
       parse cubic (canonFile w h data) len = .ok
         { offset := F64.fin true 108 0, scale := F64.fin false 6917529027641082 (-61), maxerror := HState.init.maxerror,
           rmserror := HState.init.rmserror, description := HState.init.description, datetime := HState.init.datetime,
           w := w, h := h, datastart := canonHeaderLen w h }) ∧
-    (len ≠ canonHeaderLen w h + 2 * w * h → parse cubic (canonFile w h data) len = .error .wrongLength) := by
+    (w ≤ 2 ^ 30 → h ≤ 2 ^ 30 → len ≠ canonHeaderLen w h + 2 * w * h → parse cubic (canonFile w h data) len = .error .wrongLength) := by
   have hs := canonical_scan cubic w h hwm hhm data
   have hl10w := dec_length_le 10 w (by norm_num) (by omega)
   have hl10h := dec_length_le 10 h (by norm_num) (by omega)
@@ -679,21 +684,34 @@ theorem canonical_file (cubic : Bool) (w h : Nat) (hw2 : 2 ≤ w) (hwe : w % 2 =
   have d2 : (2:Int) ≤ (h:Int) := by omega
   have d3 : (w:Int) % 2 = 0 := by omega
   have d4 : (h:Int) % 2 = 1 := by omega
-  constructor
-  · intro hlen'
-    unfold parse
-    rw [hs]
-    simp only []
-    rw [validate_ok_iff]
-    refine ⟨rfl, o1, o2, o3, d1, d2, d3, d4, canonHeaderLen w h - 1, rfl, ?_, ?_⟩
-    · exact hcoded.mpr (by rw [e1]; omega)
-    · simp [hdrOf, stCanon, e1]
-  · intro hne
+  refine ⟨?_, ?_, ?_⟩
+  · intro hbig
     unfold parse
     rw [hs]
     simp only []
     rw [(validate_error_iff _ len).2.2.2.2.2.2.2.1]
-    refine ⟨rfl, o1, o2, o3, d2, d1, d3, d4, Or.inr ⟨canonHeaderLen w h - 1, rfl, ?_⟩⟩
+    refine ⟨rfl, o1, o2, o3, d2, d1, d3, d4, ?_⟩
+    rcases hbig with hb | hb
+    · left; show (2:Int) ^ 30 < (w:Int); omega
+    · right; show (2:Int) ^ 30 < (h:Int); omega
+  · intro hw30 hh30 hlen'
+    have d5 : (w:Int) ≤ 2 ^ 30 := by omega
+    have d6 : (h:Int) ≤ 2 ^ 30 := by omega
+    unfold parse
+    rw [hs]
+    simp only []
+    rw [validate_ok_iff]
+    refine ⟨rfl, o1, o2, o3, d1, d2, d3, d4, d5, d6, canonHeaderLen w h - 1, rfl, ?_, ?_⟩
+    · exact hcoded.mpr (by rw [e1]; omega)
+    · simp [hdrOf, stCanon, e1]
+  · intro hw30 hh30 hne
+    have d5 : (w:Int) ≤ 2 ^ 30 := by omega
+    have d6 : (h:Int) ≤ 2 ^ 30 := by omega
+    unfold parse
+    rw [hs]
+    simp only []
+    rw [(validate_error_iff _ len).2.2.2.2.2.2.2.2.1]
+    refine ⟨rfl, o1, o2, o3, d2, d1, d3, d4, d5, d6, Or.inr ⟨canonHeaderLen w h - 1, rfl, ?_⟩⟩
     cases hc : lengthOKCoded (canonHeaderLen w h - 1 + 1) (w : Int) (h : Int) len with
     | false => rfl
     | true => exact absurd (by have := hcoded.mp hc; rw [e1] at this; omega) hne
